@@ -124,6 +124,14 @@ Definition reader_chunks (input : string) : res (list string) :=
   | Diverge => Diverge
   end.
 
+(* number of newlines a chunk ends with (what a keep-chomped block scalar at its end observes) *)
+Fixpoint leading_nl (s : string) : N :=
+  match s with
+  | String c s' => if Ascii.eqb c nl then (1 + leading_nl s')%N else 0%N
+  | EmptyString => 0%N
+  end.
+Definition trailing_nl (s : string) : N := leading_nl (str_rev s).
+
 (* ---- vocabulary of the theorems ---- *)
 
 (* d1 ++ sep1 ++ d2 ++ sep2 ++ ... ++ dn *)
